@@ -499,14 +499,32 @@ def run_case(case, ctx):
         # one tensor per call is the documented use; call it for the first tracked operand, read the others from .grad
         first = names[0]
         full = tracked[first] == list(range(d))
-        out = ctx.lib('grad.grad', (lambda v, t: torchtt.grad.grad(v, t)) if full else (lambda v, t: torchtt.grad.grad(v, t, list(tracked[first]))), val, E.tt[first])
+        # core_indices are python indices into the core list: any order, negative values and repetitions are answered position by position
+        req = list(tracked[first])
+        rmode = case['seed'] % 4
+        if rmode == 1 and len(req) >= 2:
+            req = req[::-1]
+        elif rmode == 2:
+            req = [i_ - d if (j_ % 2 == 0) else i_ for j_, i_ in enumerate(req)]
+        elif rmode == 3:
+            req = req + req[:1]
+        if rmode in (1, 2, 3) and req != list(tracked[first]):
+            ctx.count('grad.grad/core_indices-not-ascending-or-negative-or-repeated')
+            full = False
+        out = ctx.lib('grad.grad', (lambda v, t: torchtt.grad.grad(v, t)) if full else (lambda v, t: torchtt.grad.grad(v, t, list(req))), val, E.tt[first])
         if isinstance(out, Raised):
             ctx.viol('grad.grad/clause=raises:%s' % out.type, '%s: %r' % (what, out))
             return
-        if len(out) != len(tracked[first]):
-            ctx.viol('grad.grad/clause=length', '%s: %d gradients for %d cores' % (what, len(out), len(tracked[first])))
+        if len(out) != (d if full else len(req)):
+            ctx.viol('grad.grad/clause=length', '%s: %d gradients for the %d requested cores %s' % (what, len(out), len(req), req))
             return
-        got = {(first, i): out[j] for j, i in enumerate(tracked[first])}
+        got = {}
+        for j, i in enumerate(list(range(d)) if full else req):
+            i_ = i % d
+            if (first, i_) in got and out[j] is not None and got[(first, i_)] is not None and not torch.equal(out[j], got[(first, i_)]):
+                ctx.viol('grad.grad/clause=repeated-index-answered-differently', '%s: core_indices=%s' % (what, req))
+            if i_ in tracked[first]:
+                got[(first, i_)] = out[j]
         for nme in names[1:]:
             for i in tracked[nme]:
                 got[(nme, i)] = E.tt[nme].cores[i].grad
